@@ -276,6 +276,60 @@ def documented_members(patched: ast.Module, run: Run) -> tuple[list, dict]:
     return (lists[0] if lists else []), docs[0]
 
 
+def _d10_pages(run: Run) -> None:
+    """D10: docs.view.print_law / print_package EVALUATED with marker strings for every part: whatever is listed or documented reaches the page - the header, the
+    table of contents when there is something to list, and ALWAYS the members and the functions (a package that documents constants itself and has no
+    sub-pages - symplyphysics.quantities - still lists them)"""
+    run.rule("D10", "every page carries its title, description, module directive, its documented members and functions; a package page also its sub-packages and laws - for every combination of empty and non-empty parts")
+    vm = run.src.need(DOCS + "view")
+
+    class R(PyReader):
+
+        def hook_call(self, n, env, fns):
+            name = (dotted(n.func) or "").split(".")[-1]
+            if name == "_members_to_doc" and name in self.functions:
+                ms = self.ev(n.args[0], env, fns)
+                return "<<MEMBERS>>" if ms else ""
+            if name == "_functions_to_doc" and name in self.functions:
+                fs_ = self.ev(n.args[0], env, fns)
+                return "<<FUNCTIONS>>" if fs_ else ""
+            return NotImplemented
+
+    for fname in ("print_law", "print_package"):
+        run.require(any(isinstance(f_, ast.FunctionDef) and f_.name == fname for f_ in vm.tree.body), f"docs.view.{fname} not found")
+    import itertools as _it
+    for members, functions in _it.product((["m"], []), repeat=2):
+        run.ob("D10", f"print_law[members={bool(members)},functions={bool(functions)}]")
+        rd = R(vm.tree, "docs/view.py", depth_limit=8)
+        try:
+            got = rd.call("print_law", ["TITLE", "DESCRIPTION", members, functions, "pkg.law"])
+        except Raised as r_:
+            got = r_
+        need = ["TITLE", "=====", "DESCRIPTION", "pkg.law"] + (["<<MEMBERS>>"] if members else []) + (["<<FUNCTIONS>>"] if functions else [])
+        missing = [x for x in need if not (isinstance(got, str) and x in got)]
+        if missing:
+            run.violate("D10", f"{DOCS}view:print_law:{','.join(missing)}", vm, vm.tree,
+                        f"print_law(members={'some' if members else 'none'}, functions={'some' if functions else 'none'}) does not put {missing} on the page "
+                        f"({'raises ' + got.exc if isinstance(got, Raised) else 'returned text lacks them'})")
+            break
+    for members, functions, laws, packages in _it.product((["m"], []), (["f"], []), (["LAW1"], []), (["PKG1"], [])):
+        run.ob("D10", f"print_package[members={bool(members)},functions={bool(functions)},laws={bool(laws)},packages={bool(packages)}]")
+        rd = R(vm.tree, "docs/view.py", depth_limit=8)
+        try:
+            got = rd.call("print_package", ["TITLE", "DESCRIPTION", members, functions, "pkg", laws, packages])
+        except Raised as r_:
+            got = r_
+        need = ["TITLE", "=====", "DESCRIPTION", "pkg"] + (["<<MEMBERS>>"] if members else []) + (["<<FUNCTIONS>>"] if functions else []) + laws + packages \
+            + (["toctree"] if laws or packages else [])
+        missing = [x for x in need if not (isinstance(got, str) and x in got)]
+        if missing:
+            run.violate("D10", f"{DOCS}view:print_package:{','.join(missing)}", vm, vm.tree,
+                        f"print_package(members={'some' if members else 'none'}, functions={'some' if functions else 'none'}, laws={laws}, packages={packages}) does not put {missing} on the page "
+                        f"({'raises ' + got.exc if isinstance(got, Raised) else 'the returned text lacks them'}): a package that documents its own members and has no sub-pages "
+                        f"(symplyphysics.quantities, the 27 constants) loses them, and every reference to them stops resolving")
+            break
+
+
 def _patcher_anchors(run: Run) -> None:
     # the replica in this checker (kept_prefix, member/docstring association) mirrors two functions of the generator; any change of
     # their code (not of comments/formatting) means the replica must be re-derived: the analysis refuses instead of guessing
@@ -431,6 +485,7 @@ def check(run: Run) -> None:
         _d6(run, w)
         _d7(run, w)
         _d8(run, w)
+        _d10_pages(run)
         if not run.findings:
             raise AnalysisError(stale)
         return
@@ -600,6 +655,7 @@ def check(run: Run) -> None:
     _d6(run, w)
     _d7(run, w)
     _d8(run, w)
+    _d10_pages(run)
 
 
 _D1_FIXTURE = '''"""
